@@ -228,6 +228,54 @@ def _check_concat(ctx, px):
         raise AnalysisError("string-literal concatenation statements not found in _parse_unified_(w)string_literal")
 
 
+def escape_merge(ctx, rid, px):
+    """Adjacent literals are joined textually: an escape that ends one piece (\\x hex digits without bound, \\d octal with fewer than three digits)
+    is extended by a digit that starts the next piece - C concatenates AFTER escapes are interpreted (5.1.1.2 phases 5 and 6)."""
+    from .. import lexmodel as LM
+    from .. import rxmodel as R
+    lm = LM.LexModel()
+    a = lm.alpha
+    hexd = R.cls("0-9a-fA-F")
+    octd = R.cls("0-7")
+    anyc = R.setof(R.cs_neg(()))
+    # a string token whose content ends with an extensible escape / whose content starts with a hex or octal digit
+    ends_ext = R.seq(R.star(anyc), R.alt(R.seq(R.lit("\\x"), R.plus(hexd)), R.seq(R.lit("\\"), R.rep(1, 2, octd))), R.lit('"'))
+    for m in ("_parse_unified_string_literal", "_parse_unified_wstring_literal"):
+        fn = px.method("CParser", m)
+        joins = [st for lp in ast.walk(fn) if isinstance(lp, ast.While) for st in lp.body if isinstance(st, ast.Assign) and isinstance(st.targets[0], ast.Attribute) and st.targets[0].attr == "value"
+                 and isinstance(st.value, ast.BinOp) and isinstance(st.value.op, ast.Add)]
+        if not joins:
+            raise AnalysisError(f"{m}: the statement that joins adjacent literals was not found")
+        rule_name = "STRING_LITERAL" if m == "_parse_unified_string_literal" else "WSTRING_LITERAL"
+        node = next(nd for nme, nd, _ in lm.rules if nme == rule_name)
+        al = R.Alphabet(list(R.charsets(node)) + list(R.charsets(ends_ext)))
+        can_end = _intersects(R, al, node, ends_ext)
+        separated = any(isinstance(c, ast.Constant) and isinstance(c.value, str) and c.value in ('""', '" "') for st in joins for c in ast.walk(st.value))
+        ok = not can_end or separated
+        ctx.oblige(rid, f"{m}: joining adjacent literals cannot extend an escape sequence", ok, sample={"rule": rid, "method": m, "a piece can end with an extensible escape": can_end, "join": S.unparse(joins[0])[:80]})
+        if not ok:
+            ctx.violation(rid, f"escape-merge:{m}", f"{m} joins adjacent string literals by plain text concatenation (`{S.unparse(joins[0])[:70]}`); a piece may end with a hexadecimal or short octal escape and the next piece start with a digit: "
+                          "`\"\\x12\" \"3\"` (two characters then '3') becomes `\"\\x123\"` (one character) - a different string", file=px.rel, function=f"CParser.{m}", line=joins[0].lineno)
+
+
+def _intersects(R, al, node_a, node_b):
+    """is L(node_a) & L(node_b) non-empty?  (product search on the two DFAs)"""
+    da, db = R.language_dfa(al, node_a), R.language_dfa(al, node_b)
+    seen, todo = {(da.start, db.start)}, [(da.start, db.start)]
+    while todo:
+        x, y = todo.pop()
+        if x in da.accepting and y in db.accepting:
+            return True
+        for s_ in range(da.n_syms):
+            x2, y2 = da.step(x, s_), db.step(y, s_)
+            if x2 is None or y2 is None:
+                continue
+            if (x2, y2) not in seen:
+                seen.add((x2, y2))
+                todo.append((x2, y2))
+    return False
+
+
 def _loop_depth(n):
     d = 0
     cur = getattr(n, "_parent", None)
